@@ -8,7 +8,13 @@ class after creation, or attached to the instance; methods possibly only for bas
 The output tree is compared structurally with identity tokens: objects that existed before the
 call print as `(old token)`, objects created by the call as `(new k …)` (numbered by first
 occurrence).  After every call (also when a method raised) every field of every input object
-is re-read and compared by identity with the snapshot taken before the call."""
+is re-read and compared by identity with the snapshot taken before the call.
+
+Further theorem files (aggregate Props/C09All.lean): Props/C09Rw.lean (model = the independent pure rewrite `Rw` of
+Spec/Rewrite.lean up to identities; the protocol handler also compares the two on every request), Props/C09Dispatch.lean
+(decision table for the node's OWN class under `Head.ownMro`, checked by the handler on every node; no fuel error;
+raise propagates), Props/C09Fresh.lean (created objects have new, pairwise distinct identities; unchanged subtrees with
+a semantic hypothesis)."""
 from __future__ import annotations
 
 import dataclasses
@@ -27,13 +33,23 @@ import zoo_c09
 sys.setrecursionlimit(20000)
 
 PROPERTY = "C09"
-LEAN_MODULE = "PyOak.Props.C09"
+LEAN_MODULE = "PyOak.Props.C09All"
 THEOREMS = ["PyOak.C09." + t for t in [
     "dispatch_strict", "dispatch_eq_nearest", "dispatch_nearest", "dispatch_generic", "dispatch_skips_last",
     "transform_eq_spec", "unchanged_identity", "unchanged_tree_returns_itself", "quiet_same",
     "generic_result_same_or_new", "changed_ancestors_new", "counter_mono",
     "removed_dropped_in_order", "anyChanged_of_removed", "removed_single_none", "unchanged_field_kept",
-    "input_untouched"]]
+    "input_untouched",
+    # Props/C09Rw.lean: the model against the independent pure rewrite Rw (Spec/Rewrite.lean)
+    "T_strip", "transform_strip", "transform_strip'", "transform_strip_noReplace", "coh_of_all", "Rw_err",
+    "Rw_nodes_removed", "Rw_single_removed", "Ex.T_strip_needs_coh", "Ex.T_strip_needs_fresh",
+    # Props/C09Dispatch.lean: own class / decision table, errors, raise clause
+    "dispatch_own", "action_own", "dispatch_own_has", "dispatch_own_strict_none", "dispatch_own_base",
+    "dispatch_own_generic", "T_err", "transform_no_fuel", "transform_err", "raise_propagates",
+    "transform_raise_propagates", "raise_no_result",
+    # Props/C09Fresh.lean: created objects are new identities; unchanged subtrees, semantic hypothesis
+    "new_uids", "transform_new_uids", "new_ne_input", "replaceBy_in_table", "changed_ancestors_new_rw",
+    "unchanged_semantic", "transform_unchanged_semantic", "Ex.unchanged_semantic_fails"]]
 RULE = ("seeded zoo trees (single/optional/union/variadic/fixed-tuple child fields, shared objects, falsy nodes, "
         "tuples of length 0-14) x rule tables {class name -> default action + per-object overrides} with actions "
         "generic/keep/rewrite-property/replace-by-node/remove/raise, strict and non-strict, methods for base "
